@@ -52,12 +52,17 @@ def h160(b):
         return b'\x00' * 20
 
 
+def rf(rng):
+    """a flag set: the four implemented flags (low bits) and, sometimes, the six unimplemented ones"""
+    return rng.randrange(16) + ((rng.getrandbits(6) << 4) if rng.random() < 0.4 else 0)
+
+
 def generate(rng, tier, boost):
     big = tier == 'thorough' or boost
     cases = []
 
     def add(ssig, spk):
-        cases.append((701, [ssig, spk, rng.randrange(16), rng.randrange(12)]))
+        cases.append((701, [ssig, spk, rf(rng), rng.randrange(12)]))
     for _ in range(30000 if big else 1500):
         r = rng.random()
         if r < 0.35:
@@ -116,26 +121,34 @@ def generate(rng, tier, boost):
             addf(b'\x51\x52', dummy + G.push(b's\x01') + b'\x51' + G.push(b'k') + b'\x51\xae', f)
     for idx in (b'\x4f', b'\x00', b'\x51', b'\x52', b'\x53', b'\x05\x01\x02\x03\x04\x05'):
         for opc in (b'\x79', b'\x7a'):
-            addf(b'\x51\x52', idx + opc, rng.randrange(16))
-            addf(b'', idx + opc, rng.randrange(16))
+            addf(b'\x51\x52', idx + opc, rf(rng))
+            addf(b'', idx + opc, rf(rng))
     for n in (996, 997, 998, 999, 1000):
         for opc in (b'\x6f', b'\x6e', b'\x70', b'\x7d', b'\x76', b'\x73', b'\x74', b'\x82', b'\x6c', b'\x78'):
-            addf(b'\x51' * n, opc, rng.randrange(16))
-            addf(b'\x51' * (n - 2), b'\x6b\x6b' + opc, rng.randrange(16))
-            addf(b'\x51' * (n - 1), b'\x6b' + opc + b'\x6c', rng.randrange(16))
+            addf(b'\x51' * n, opc, rf(rng))
+            addf(b'\x51' * (n - 2), b'\x6b\x6b' + opc, rf(rng))
+            addf(b'\x51' * (n - 1), b'\x6b' + opc + b'\x6c', rf(rng))
     for tail in (b'\x6a', b'\x75', b'\x69', b'\x88', b'\xab\x6a', b'\x51\x55\x79', b'\x67', b'\x68', b'\xff', b'\x7e', b'\xb1'):
-        addf(b'\x51', b'\x61\xab' + tail, rng.randrange(16))
-        addf(b'\x51', b'\x02\xab\xab\xab\x75' + tail, rng.randrange(16))
-        addf(b'\x51', b'\x00\x63\xab\x68\xab\x61' + tail, rng.randrange(16))
+        addf(b'\x51', b'\x61\xab' + tail, rf(rng))
+        addf(b'\x51', b'\x02\xab\xab\xab\x75' + tail, rf(rng))
+        addf(b'\x51', b'\x00\x63\xab\x68\xab\x61' + tail, rf(rng))
     # signature checks that reach the signature-hash code with every base hash type, on every kind of
     # transaction (mutable / immutable, other inputs signed / unsigned): nothing may be modified
     pk = b'\x02' + bytes(range(1, 33))
     for ht in (0, 1, 2, 3, 0x22, 0x43, 0x81, 0x82, 0x83, 0xff):
         sig = rbytes(rng, rng.choice([9, 40, 71, 72])) + bytes([ht])
         for mode in range(12):
-            cases.append((701, [G.push(sig), G.push(pk) + b'\xac', rng.randrange(16), mode]))
-        cases.append((701, [b'\x00' + G.push(sig), b'\x51' + G.push(pk) + b'\x51\xae', rng.randrange(16), rng.choice([1, 7, 9])]))
-        cases.append((701, [G.push(sig) + G.push(pk), b'\x76\xa9' + G.push(h160(pk)) + b'\x88\xac', rng.randrange(16), rng.choice([1, 7, 9])]))
+            cases.append((701, [G.push(sig), G.push(pk) + b'\xac', rf(rng), mode]))
+        cases.append((701, [b'\x00' + G.push(sig), b'\x51' + G.push(pk) + b'\x51\xae', rf(rng), rng.choice([1, 7, 9])]))
+        cases.append((701, [G.push(sig) + G.push(pk), b'\x76\xa9' + G.push(h160(pk)) + b'\x88\xac', rf(rng), rng.choice([1, 7, 9])]))
+    # signature operands that are not signatures: one to four bytes, beginning like a DER sequence or not,
+    # under every base hash type, against a valid and an undecodable key, single and multi
+    for sig in (b'\x30', b'\x30\x01', b'\x30\x83', b'\x30\x00\x01', b'\x30\x06\x02\x01', b'\x00', b'\x01', b'\xff\xff',
+                b'\x30\x02\x02\x00\x01', b'\x30\x45' + b'\x02' * 8 + b'\x01'):
+        for key in (pk, b'\x02' + b'\xff' * 32, b'', b'\x04' + b'\x01' * 10):
+            cases.append((701, [G.push(sig), G.push(key) + b'\xac', rf(rng), rng.randrange(12)]))
+            cases.append((701, [b'\x00' + G.push(sig), b'\x51' + G.push(key) + b'\x51\xae', rf(rng), rng.randrange(12)]))
+            cases.append((701, [G.push(sig) + G.push(key), b'\x76\xa9' + G.push(h160(key)) + b'\x88\xad\x51', rf(rng), rng.randrange(12)]))
     # CHECKMULTISIG / CHECKMULTISIGVERIFY with key and signature counts outside 0..20 on shallow and deep stacks
     for cnt in (-1, -2, -3, -4, -21, -128, 21, 22, 100, 255, 2 ** 31 - 1, -(2 ** 31) + 1):
         for depth in (0, 1, 2, 3, 5, 25):
